@@ -153,6 +153,10 @@ class Run:
                 return
             c = ready[op[1] % len(ready)]
             await self.reply_and_check(c, op[2])
+        elif kind == "nested_reply":
+            ready = [c for c in live if c["opened"]]
+            if ready:
+                await self.nested_reply_and_check(ready[op[1] % len(ready)], op[2], op[3])
         elif kind == "late_reply":
             # an outside answer for a circuit that was just torn down, while its exit's outside socket lingers
             late = [c for c in self.circuits if c["dead"] and any(not t.closed for t in c.get("trs", []))]
@@ -246,6 +250,39 @@ class Run:
             self.fail("J1", "late_reply:originator", f"late reply for circuit {c['n']} was delivered as {got}")
         self.nontrivial = True
         self.executed.append(("late_reply", len(c["entries"])))
+
+    async def nested_reply_and_check(self, c: dict, pick: int, variant: int) -> None:
+        """
+        An outside party answers X's exit socket with a datagram that is itself a data message of the tunnel overlay
+        (own prefix, message 1), naming ANOTHER circuit Y of X's originator and an origin of its choosing. It sits on
+        the IP address of Y's first hop (another port), on that very address, or elsewhere. Nothing may be delivered
+        as traffic of Y: nothing travelled Y, and the sender holds none of Y's keys.
+        """
+        others = [o for o in self.circuits if not o["dead"] and o is not c and o["origin"] is c["origin"]]
+        trs = [t for t in self.exit_transports(c) if t.local_addr[0] == "0.0.0.0"]
+        if not others or not trs:
+            return
+        y = others[pick % len(others)]
+        hop = tuple(y["circuit"].hop.address)
+        sender = [(hop[0], 9), hop, ("7.7.7.7", hop[1])][variant % 3]
+        inner = b"d6:forged" + struct.pack(">H", y["n"]) + b"e"
+        nested = (self.w.prefix + b"\x01" + struct.pack(">I", y["circuit"].circuit_id) + b"\x01\x00\x00\x00\x00\x00\x00"
+                  + b"\x01\x01\x02\x03\x04\x00\x05" + inner)
+        marks = {idx: len(v) for idx, v in self.raw.items()}
+        before_other = self.digest_without(c)
+        trs[0].inject(nested, sender)
+        await asyncio.sleep(0.05)
+        got = [(idx, item) for idx, v in self.raw.items() for item in v[marks[idx]:]]
+        for idx, item in got:
+            if item[0] != c["circuit"].circuit_id or idx != c["origin"].idx or item[2] not in (nested, ):
+                self.fail("J1", "nested_reply", f"an outside party at {sender} answered circuit {c['n']}'s exit socket with a "
+                                                f"data message naming circuit {y['n']} (first hop {hop}); delivered: "
+                                                f"node {idx} got {item[2][:40]!r} labelled circuit id {item[0]} origin "
+                                                f"{item[1]}")
+        if self.loop.time() == self.loop.time() and before_other != self.digest_without(c):
+            self.fail("J2", "nested_reply", f"entries of other circuits changed through a nested data message")
+        self.nontrivial = True
+        self.executed.append(("nested_reply", variant % 3))
 
     async def reply_and_check(self, c: dict, tag: int) -> None:
         payload = self.tag_payload(c, tag, back=True)
@@ -600,6 +637,7 @@ def _strategy(max_ops: int):
         st.tuples(st.just("burst"), i).map(list),
         st.tuples(st.just("reply"), i, i).map(list),
         st.tuples(st.just("late_reply"), i, i).map(list),
+        st.tuples(st.just("nested_reply"), i, i, i).map(list),
         st.tuples(st.just("advance"), st.sampled_from([0.5, 3.0, 8.0, 61.0])).map(list),
         st.tuples(st.just("unknown_cell"), i, st.integers(0, 2**32 - 1), i).map(list),
         st.tuples(st.just("forged_cell"), i, i, i).map(list),
